@@ -629,6 +629,8 @@ def c06(ctx: Ctx) -> None:
     ctx.rule('C06-R3', 'owner-only UNMARK (= C01-R7): no bookkeeping KeyError, no foreign marker removed', 1)
     ctx.rule('C06-R4', 'a CancelledError caught around the shielded wait is re-raised only if the local waiter task is not done', 1)
     ctx.rule('C06-R5', 'cancel() only on the locally created waiter task; shield() wraps that task; the shared event is never cleared', 2)
+    ctx.rule('C06-R6', 'a RuntimeError of the cross-loop bridge (computing loop closed) leads back to the retry head, never to the caller', 1)
+    ctx.rule('C06-R7', 'every exception/cancel edge of the wrapped call passes the wake-up of the waiters', 1)
     if not _require_table(ctx, r, 'C06-R1'):
         _publish_roles(ctx, r)
         return
@@ -663,6 +665,26 @@ def c06(ctx: Ctx) -> None:
               detail_bad=f'unexpected operations on the shared marker: {sorted(ev_methods - allowed)}',
               construct=construct_key(r.wrapper.qualname, 'marker methods', sorted(ev_methods - allowed)))
     rule_owner_only_unmark(ctx, r, 'C06-R3')
+    # R6: bookkeeping failures of the cross-loop bridge never reach the caller
+    head = [r.HEAD] if r.HEAD else []
+    bridge_calls = [n for n in g.nodes if n.kind == 'call' and call_name(g, n.ast) == 'asyncio.run_coroutine_threadsafe']
+    for b in bridge_calls:
+        ee = [e for e in g.succ[b.id] if e.label == 'exc']
+        wp = must_pass(g, [], [g.exit, g.raise_exit], head, start_edges=ee)
+        ctx.check('C06-R6', f'RuntimeError of {norm(b.ast)} stays inside the wrapper', _loc(g, b), wp is None and bool(ee) and bool(head),
+                  'a closed computing loop makes the waiter retry', 'another loop\'s shutdown surfaces as a RuntimeError of the cache\'s own bookkeeping',
+                  witness=render(g, wp), construct=construct_key(r.wrapper.qualname, 'bridge failure escapes'))
+    # R7: a failing / cancelled computing caller still wakes the waiters (no 60 s penalty for bystanders)
+    exits = [g.exit, g.raise_exit] + head
+    safe_unmarks = {u.id for u in r.UNMARK if ownership_guarded(r, u)}
+    feasible = lambda e: not (e.label == 'exc' and e.src.id in safe_unmarks)
+    for c in r.CALL:
+        ee = [e for e in g.succ[c.id] if e.label == 'exc']
+        w = must_pass(g, [], exits, r.WAKE, start_edges=ee, edge_ok=feasible)
+        ctx.check('C06-R7', f'exception/cancel edges of {norm(c.ast)} wake the waiters', _loc(g, c), w is None and bool(r.WAKE),
+                  'one caller\'s failure costs the others a recomputation, not the safety timeout',
+                  'waiters of a failed or cancelled computation are not woken: they sit out the 60 s timeout',
+                  witness=render(g, w), construct=construct_key(r.wrapper.qualname, 'failure does not wake'))
     # R4
     shield_awaits = [n for n in g.nodes if n.kind == 'await' and isinstance(n.ast.value, ast.Call)
                      and call_name(g, n.ast.value) == 'asyncio.shield']
@@ -796,7 +818,8 @@ def c14(ctx: Ctx) -> None:
     # R1: key expression with local aliases substituted
     p = find_path(g, [g.entry], [stores[0]]) or []
     env = sym_env(g, p)
-    kexpr = subst(stores[0].meta['value'], env)
+    from ..sym import expand_inlined
+    kexpr = subst(expand_inlined(g, stores[0].meta['value']), env)
     ktxt = norm(kexpr)
     verdict, why = classify_key(kexpr, va, kw)
     inst = f'key = {ktxt}'
